@@ -434,6 +434,10 @@ func (c *fctx) applyContract(fr *frame, key string, ct *spec.FuncContract, fn *s
 	}
 	for _, en := range ct.Ensures {
 		g := e.tr(en.E)
+		if en.Quiet {
+			c.saveQuiet(key, en.Label, implies(reach, g.t))
+			continue
+		}
 		c.assume(implies(reach, g.t))
 	}
 	for _, en := range ct.Defines {
@@ -445,8 +449,12 @@ func (c *fctx) applyContract(fr *frame, key string, ct *spec.FuncContract, fn *s
 	}
 	for _, en := range ct.Assumes {
 		g := e.tr(en.E)
-		c.assume(implies(reach, g.t))
 		c.used["assumed-postcondition:"+key+": "+en.Src] = true
+		if en.Quiet {
+			c.saveQuiet(key, en.Label, implies(reach, g.t))
+			continue
+		}
+		c.assume(implies(reach, g.t))
 	}
 	switch len(results) {
 	case 0:
@@ -455,6 +463,18 @@ func (c *fctx) applyContract(fr *frame, key string, ct *spec.FuncContract, fn *s
 		return results[0]
 	}
 	return val{tup: results}
+}
+
+// saveQuiet keeps a quiet post-condition of a call for the caller's clauses that ask for it as "<function name>.<label>".
+func (c *fctx) saveQuiet(key, label, fact string) {
+	name := key
+	if i := strings.LastIndexAny(name, "./)"); i >= 0 {
+		name = name[i+1:]
+	}
+	if c.quiet == nil {
+		c.quiet = map[string][]string{}
+	}
+	c.quiet[name+"."+label] = append(c.quiet[name+"."+label], fact)
 }
 
 func contractLabel(ct *spec.FuncContract, key string) string {
